@@ -352,6 +352,229 @@ def bernoulli(src):
     return tr_compare(resolve(ret[0].value, env), Tr(env, atom, 'bernoulli.ppf'), 'bernoulli.ppf'), unparse(resolve(ret[0].value, env))
 
 
+
+# ---------------------------------------------------------------------------
+# group selectors of mixing pools (round 3)
+
+class TrBool:
+    """ Boolean expression translator (and / or / not / == / != / order comparisons / `is None`) over named atoms """
+    def __init__(self, env, atoms, none_atoms, where):
+        self.env = env; self.atoms = atoms; self.none_atoms = none_atoms; self.where = where
+
+    def val(self, node):
+        s = unparse(node)
+        if s in self.atoms: return self.atoms[s]
+        if isinstance(node, ast.Name) and node.id in self.env:
+            return self.val(resolve(node, self.env))
+        if isinstance(node, ast.Constant) and isinstance(node.value, int) and not isinstance(node.value, bool):
+            return f'({node.value} : Int)'
+        if isinstance(node, ast.UnaryOp) and isinstance(node.op, ast.USub) and isinstance(node.operand, ast.Constant) \
+                and isinstance(node.operand.value, int):
+            return f'(-{node.operand.value} : Int)'
+        raise ExtractError(f'{self.where}: unsupported operand `{s[:60]}`')
+
+    def __call__(self, node):
+        if isinstance(node, ast.Name) and node.id in self.env:
+            return self(resolve(node, self.env))
+        s = unparse(node)
+        if s in self.atoms and self.atoms[s] in ('doCache',):
+            return self.atoms[s]
+        if isinstance(node, ast.Constant) and isinstance(node.value, bool):
+            return 'true' if node.value else 'false'
+        if isinstance(node, ast.BoolOp):
+            op = ' && ' if isinstance(node.op, ast.And) else ' || '
+            return '(' + op.join(self(v) for v in node.values) + ')'
+        if isinstance(node, ast.UnaryOp) and isinstance(node.op, ast.Not):
+            return f'(!{self(node.operand)})'
+        if isinstance(node, ast.Compare) and len(node.ops) == 1:
+            op = node.ops[0]; l, r = node.left, node.comparators[0]
+            if isinstance(op, (ast.Is, ast.IsNot)) and isinstance(r, ast.Constant) and r.value is None:
+                a = self.none_atoms.get(unparse(resolve(l, self.env)))
+                if a is None:
+                    raise ExtractError(f'{self.where}: `{s}` tests an unknown value against None')
+                return a if isinstance(op, ast.Is) else f'(!{a})'
+            if isinstance(op, ast.Eq): return f'({self.val(l)} == {self.val(r)})'
+            if isinstance(op, ast.NotEq): return f'({self.val(l)} != {self.val(r)})'
+            if type(op) in CMP: return f'decide ({self.val(l)} {CMP[type(op)]} {self.val(r)})'
+        raise ExtractError(f'{self.where}: unsupported condition `{s[:80]}`')
+
+
+def age_group(src):
+    """ AgeGroup.__call__ / __init__: the recompute test, the band predicates, what the recompute branch stores """
+    fn = src.func(NET, '__call__', 'AgeGroup')
+    names = [a.arg for a in fn.args.args]
+    if len(names) != 2 or fn.args.vararg or fn.args.kwarg:
+        raise ExtractError(f'AgeGroup.__call__: expected (self, sim), got {names}')
+    me, sim = names
+    body = [n for n in fn.body if not (isinstance(n, ast.Expr) and isinstance(n.value, ast.Constant))]
+    if not body or not (isinstance(body[-1], ast.Return) and body[-1].value is not None and unparse(body[-1].value) == f'{me}.uids'):
+        raise ExtractError('AgeGroup.__call__: does not end with `return self.uids`')
+    if sum(isinstance(n, ast.Return) for n in ast.walk(fn)) != 1:
+        raise ExtractError('AgeGroup.__call__: more than one return')
+    ifs = [n for n in body[:-1] if isinstance(n, ast.If)]
+    pre = [n for n in body[:-1] if not isinstance(n, ast.If)]
+    if len(ifs) != 1 or ifs[0].orelse:
+        raise ExtractError('AgeGroup.__call__: expected exactly one `if <recompute>:` without else before the return')
+    env = {}
+    for n in pre:   # locals feeding the test (single assignment, simple names only)
+        if isinstance(n, ast.Assign) and len(n.targets) == 1 and isinstance(n.targets[0], ast.Name) and n.targets[0].id not in env:
+            env[n.targets[0].id] = n.value
+        else:
+            raise ExtractError(f'AgeGroup.__call__: unsupported statement before the recompute test: `{unparse(n)[:60]}`')
+    atoms = {f'{me}.do_cache': 'doCache', f'{me}.ti_cache': 'tiCache', f'{sim}.ti': 'ti'}
+    test = TrBool(env, atoms, {f'{me}.uids': 'uidsIsNone'}, 'AgeGroup.__call__')(ifs[0].test)
+    # the recompute branch
+    age = f'{sim}.people.age'
+    grp = None; low = None; high = None; stores = []
+
+    def band(node, bound):
+        if not (isinstance(node, ast.Compare) and len(node.ops) == 1 and type(node.ops[0]) in CMP):
+            raise ExtractError(f'AgeGroup.__call__: `{unparse(node)[:60]}` is not a single comparison')
+        l, r = unparse(node.left), unparse(node.comparators[0])
+        op = type(node.ops[0])
+        if (l, r) == (age, f'{me}.{bound}'):
+            return f'decide (age {CMP[op]} {bound})'
+        if (l, r) == (f'{me}.{bound}', age):
+            return f'decide ({bound} {CMP[op]} age)'
+        raise ExtractError(f'AgeGroup.__call__: `{unparse(node)[:60]}` does not compare sim.people.age with self.{bound}')
+
+    for n in ifs[0].body:
+        if isinstance(n, ast.Assign) and len(n.targets) == 1 and isinstance(n.targets[0], ast.Name) and grp is None:
+            grp = n.targets[0].id; low = band(n.value, 'low')
+        elif isinstance(n, ast.If) and grp is not None and high is None:
+            t = n.test
+            if not (isinstance(t, ast.Compare) and len(t.ops) == 1 and isinstance(t.ops[0], ast.IsNot) and unparse(t.left) == f'{me}.high'
+                    and isinstance(t.comparators[0], ast.Constant) and t.comparators[0].value is None) or n.orelse or len(n.body) != 1:
+                raise ExtractError(f'AgeGroup.__call__: upper bound is not guarded by `if self.high is not None:`')
+            a = n.body[0]
+            if not (isinstance(a, ast.Assign) and unparse(a.targets[0]) == grp and isinstance(a.value, ast.BinOp) and isinstance(a.value.op, ast.BitAnd)):
+                raise ExtractError(f'AgeGroup.__call__: `{unparse(a)[:60]}` is not `{grp} = {grp} & (...)`')
+            l, r = a.value.left, a.value.right
+            if unparse(l) == grp: high = band(r, 'high')
+            elif unparse(r) == grp: high = band(l, 'high')
+            else: raise ExtractError(f'AgeGroup.__call__: `{unparse(a)[:60]}` does not narrow `{grp}`')
+        elif isinstance(n, ast.Assign) and len(n.targets) == 1 and unparse(n.targets[0]) == f'{me}.uids':
+            if grp is None or unparse(n.value) not in (f'ss.uids({grp})', f'uids({grp})', f'{grp}.uids'):
+                raise ExtractError(f'AgeGroup.__call__: `{unparse(n)[:60]}` does not store the uids of the computed mask')
+            stores.append('uids')
+        elif isinstance(n, ast.Assign) and len(n.targets) == 1 and unparse(n.targets[0]) == f'{me}.ti_cache':
+            if unparse(n.value) != f'{sim}.ti':
+                raise ExtractError(f'AgeGroup.__call__: ti_cache is set to `{unparse(n.value)[:40]}`, not sim.ti')
+            stores.append('ti_cache')
+        else:
+            raise ExtractError(f'AgeGroup.__call__: unsupported statement in the recompute branch: `{unparse(n)[:60]}`')
+    if low is None or high is None or 'uids' not in stores:
+        raise ExtractError('AgeGroup.__call__: lower bound, guarded upper bound or the store of self.uids not found')
+    # __init__: initial cache state and the default of do_cache
+    init = src.func(NET, '__init__', 'AgeGroup')
+    iargs = [a.arg for a in init.args.args]
+    if iargs[:3] != ['self', 'low', 'high'] or 'do_cache' not in iargs:
+        raise ExtractError(f'AgeGroup.__init__ signature changed: {iargs}')
+    dflt = init.args.defaults[iargs.index('do_cache') - (len(iargs) - len(init.args.defaults))] if init.args.defaults else None
+    if not (isinstance(dflt, ast.Constant) and isinstance(dflt.value, bool)):
+        raise ExtractError('AgeGroup.__init__: default of do_cache is not a literal bool')
+    ini = {}
+    for n in init.body:
+        if isinstance(n, ast.Assign) and len(n.targets) == 1 and isinstance(n.targets[0], ast.Attribute) and unparse(n.targets[0].value) == 'self':
+            ini[n.targets[0].attr] = n.value
+    for k, want in (('low', 'low'), ('high', 'high'), ('do_cache', 'do_cache')):
+        if k not in ini or unparse(ini[k]) != want:
+            raise ExtractError(f'AgeGroup.__init__: self.{k} is not the constructor argument')
+    if 'uids' not in ini or not (isinstance(ini['uids'], ast.Constant) and ini['uids'].value is None):
+        raise ExtractError('AgeGroup.__init__: self.uids does not start as None')
+    if 'ti_cache' not in ini:
+        raise ExtractError('AgeGroup.__init__: self.ti_cache not initialised')
+    tc0 = lit_rat(ini['ti_cache'])
+    if tc0.denominator != 1:
+        raise ExtractError('AgeGroup.__init__: ti_cache does not start at an integer')
+    return dict(test=test, test_src=unparse(ifs[0].test) + (' where ' + '; '.join(f'{k} = {unparse(v)}' for k, v in env.items()) if env else ''),
+                low=low, high=high, stores=sorted(stores), default_cache=bool(dflt.value), init_ti=int(tc0))
+
+
+def pool_groups(src):
+    """ MixingPool.get_uids dispatch, which parameter feeds which group in step(), remove_uids keys, MixingPools wiring """
+    fn = src.func(NET, 'get_uids', 'MixingPool')
+    names = [a.arg for a in fn.args.args]
+    if len(names) != 2:
+        raise ExtractError(f'MixingPool.get_uids signature changed: {names}')
+    x = names[1]
+    disp = []
+    node = [n for n in fn.body if isinstance(n, ast.If)]
+    if len(node) != 1:
+        raise ExtractError('MixingPool.get_uids: expected one if/elif chain')
+    node = node[0]
+    while True:
+        t = unparse(node.test)
+        kind = {f'{x} is None': 'none', f'callable({x})': 'callable', f'isinstance({x}, ss.uids)': 'uids'}.get(t)
+        if kind is None or len(node.body) != 1 or not isinstance(node.body[0], ast.Return):
+            raise ExtractError(f'MixingPool.get_uids: unsupported branch `{t[:60]}`')
+        r = unparse(node.body[0].value)
+        what = {'self.sim.people.auids': 'auids', f'{x}(self.sim)': 'call', x: 'same'}.get(r)
+        if what is None:
+            raise ExtractError(f'MixingPool.get_uids: branch `{t}` returns `{r[:60]}`')
+        disp.append((kind, what))
+        if len(node.orelse) == 1 and isinstance(node.orelse[0], ast.If):
+            node = node.orelse[0]
+        elif not node.orelse:
+            break
+        else:
+            raise ExtractError('MixingPool.get_uids: unsupported else branch')
+    # step(): self.src_uids = self.get_uids(self.pars.src) ...
+    st = src.func(NET, 'step', 'MixingPool')
+    pars = []
+    for n in ast.walk(st):
+        if isinstance(n, ast.Assign) and len(n.targets) == 1 and unparse(n.targets[0]) in ('self.src_uids', 'self.dst_uids'):
+            v = n.value
+            if not (isinstance(v, ast.Call) and unparse(v.func) == 'self.get_uids' and len(v.args) == 1 and not v.keywords
+                    and unparse(v.args[0]) in ('self.pars.src', 'self.pars.dst')):
+                raise ExtractError(f'MixingPool.step: `{unparse(n)[:70]}` is not self.get_uids(self.pars.src|dst)')
+            pars.append((n.targets[0].attr, unparse(v.args[0]).split('.')[-1]))
+    if sorted(p[0] for p in pars) != ['dst_uids', 'src_uids']:
+        raise ExtractError(f'MixingPool.step: src_uids / dst_uids are not each assigned once from get_uids: {pars}')
+    # remove_uids(): for key in [...]: if isinstance(self.pars[key], ss.uids): self.pars[key] = inds.remove(uids)
+    rm = src.func(NET, 'remove_uids', 'MixingPool')
+    rnames = [a.arg for a in rm.args.args]
+    loops = [n for n in rm.body if isinstance(n, ast.For)]
+    keys = None
+    if len(loops) == 1 and isinstance(loops[0].iter, (ast.List, ast.Tuple)) and isinstance(loops[0].target, ast.Name) \
+            and all(isinstance(e, ast.Constant) and isinstance(e.value, str) for e in loops[0].iter.elts):
+        kv = loops[0].target.id
+        env = local_env(loops[0])
+        for n in ast.walk(loops[0]):
+            if isinstance(n, ast.Assign) and unparse(n.targets[0]) == f'self.pars[{kv}]':
+                v = n.value
+                if isinstance(v, ast.Call) and isinstance(v.func, ast.Attribute) and v.func.attr == 'remove' and len(v.args) == 1 \
+                        and unparse(v.args[0]) == rnames[1] and unparse(resolve(v.func.value, env)) == f'self.pars[{kv}]':
+                    keys = [e.value for e in loops[0].iter.elts]
+    if keys is None:
+        raise ExtractError('MixingPool.remove_uids: `for key in [...]: self.pars[key] = self.pars[key].remove(uids)` not found')
+    # MixingPools.init_pre: MixingPool(..., src=<value of p.src loop>, dst=<value of p.dst loop>, contacts=p.contacts[i, j])
+    ip = src.func(NET, 'init_pre', 'MixingPools')
+    var = {}
+    for n in ast.walk(ip):
+        if isinstance(n, ast.For) and isinstance(n.target, ast.Tuple) and len(n.target.elts) == 3 and isinstance(n.iter, ast.Call):
+            it = unparse(n.iter)
+            for which in ('src', 'dst'):
+                if it in (f'p.{which}.enumitems()', f'self.pars.{which}.enumitems()'):
+                    i, k, v = [unparse(e) for e in n.target.elts]
+                    var[i] = f'{which}-index'; var[k] = f'{which}-key'; var[v] = which
+    calls = [n for n in ast.walk(ip) if isinstance(n, ast.Call) and unparse(n.func) in ('MixingPool', 'ss.MixingPool')]
+    if len(calls) != 1:
+        raise ExtractError('MixingPools.init_pre: expected one MixingPool(...) construction')
+    env = local_env(ip)
+    wiring = []
+    for kw in calls[0].keywords:
+        if kw.arg in ('src', 'dst'):
+            wiring.append((kw.arg, var.get(unparse(kw.value), '?' + unparse(kw.value)[:30])))
+    cs = [n for n in ast.walk(ip) if isinstance(n, ast.Subscript) and unparse(n.value) in ('p.contacts', 'self.pars.contacts')]
+    if len(cs) != 1 or not isinstance(cs[0].slice, ast.Tuple) or len(cs[0].slice.elts) != 2:
+        raise ExtractError('MixingPools.init_pre: contacts[i, j] not found')
+    wiring.append(('contacts', ','.join(var.get(unparse(e), '?') for e in cs[0].slice.elts)))
+    if sorted(w[0] for w in wiring) != ['contacts', 'dst', 'src']:
+        raise ExtractError(f'MixingPools.init_pre: MixingPool(...) is not given src= and dst=: {wiring}')
+    return dict(dispatch=disp, pars=sorted(pars, reverse=True), remove_keys=keys, wiring=sorted(wiring))
+
+
 @generator('TransmissionFacts', [DIS, NET, DST])
 def gen(src):
     cmp, order, cmp_src = kernel(src)
@@ -365,6 +588,9 @@ def gen(src):
         raise ExtractError('DynamicNetwork now overrides net_beta (not modelled)')
     pl = pool(src)
     bern, bern_src = bernoulli(src)
+    ag = age_group(src)
+    pg = pool_groups(src)
+    pairs = lambda l: ', '.join(f'({lean_str(a)}, {lean_str(b)})' for a, b in l)
     dirs = ', '.join(f'({lean_str(s)}, {lean_str(t)}, {b})' for s, t, b in inf['dirs'])
     body = f'''set_option linter.unusedVariables false
 namespace StarsimModel.Gen
@@ -414,9 +640,34 @@ def poolGroups : List String := [{lean_str(pl['trans_group'])}, {lean_str(pl['ac
 /-- `bernoulli.ppf`: `{bern_src}` -/
 def bernoulliAccept (r p : Rat) : Bool :=
   {bern}
+/-- `AgeGroup.__call__`: the group is recomputed iff `{ag['test_src']}` -/
+def ageGroupRecompute (doCache : Bool) (tiCache ti : Int) (uidsIsNone : Bool) : Bool :=
+  {ag['test']}
+/-- `AgeGroup.__call__`: lower bound of the band -/
+def ageGroupInLow (age low : Rat) : Bool :=
+  {ag['low']}
+/-- `AgeGroup.__call__`: upper bound of the band (applied only `if self.high is not None`) -/
+def ageGroupInHigh (age high : Rat) : Bool :=
+  {ag['high']}
+/-- `AgeGroup.__call__`: attributes stored by the recompute branch -/
+def ageGroupStores : List String := [{', '.join(lean_str(x) for x in ag['stores'])}]
+/-- `AgeGroup.__init__`: `self.ti_cache` of a new group, and the default of `do_cache` -/
+def ageGroupInitTiCache : Int := {ag['init_ti']}
+def ageGroupDefaultDoCache : Bool := {'true' if ag['default_cache'] else 'false'}
+/-- `MixingPool.get_uids`: (test on the group parameter, what is returned), in order -/
+def poolGetUids : List (String × String) := [{pairs(pg['dispatch'])}]
+/-- `MixingPool.step`: (group attribute, parameter it is resolved from) -/
+def poolGroupPars : List (String × String) := [{pairs(pg['pars'])}]
+/-- `MixingPool.remove_uids`: parameters from which dead agents are removed when given as explicit uids -/
+def poolRemoveKeys : List String := [{', '.join(lean_str(x) for x in pg['remove_keys'])}]
+/-- `MixingPools.init_pre`: what each sub-pool is constructed from -/
+def poolsWiring : List (String × String) := [{pairs(pg['wiring'])}]
 end StarsimModel.Gen
 '''
-    facts = dict(transmits=cmp_src, kernel_returns=order, eff_trans=inf['eff_trans_src'], eff_sus=inf['eff_sus_src'],
+    facts = dict(age_group_recompute=ag['test_src'], age_group_low=ag['low'], age_group_high=ag['high'], age_group_init_ti=ag['init_ti'],
+                 pool_get_uids=[list(x) for x in pg['dispatch']], pool_group_pars=[list(x) for x in pg['pars']],
+                 pool_remove_keys=pg['remove_keys'], pools_wiring=[list(x) for x in pg['wiring']],
+                 transmits=cmp_src, kernel_returns=order, eff_trans=inf['eff_trans_src'], eff_sus=inf['eff_sus_src'],
                  directions=[list(d) for d in inf['dirs']], dedup=inf['dedup'], skips_zero_beta=inf['skips'],
                  net_beta_plain=plain_src, net_beta_sexual=sexual_src, pool_p=pl['p_src'], pool_trans=pl['trans_src'],
                  pool_acq=pl['acq_src'], pool_groups=[pl['trans_group'], pl['acq_group'], pl['filter_group']], bernoulli=bern_src,
